@@ -17,20 +17,25 @@ from .core import Relation, err_kind
 
 PROP = "C18"
 CLAIMED = True
-COQ_MODULES = ["C18_Check", "C18_Proofs", "C18_ProofsCheck"]
+COQ_MODULES = ["C18_Check", "C18_Proofs", "C18_ProofsOrder", "C18_ProofsCheck"]
 PROPERTY_MODULE = "C18_Property"
-# Coq's primitive binary64 type and operations are printed by Print Assumptions under "Axioms:" for the two
+# Coq's primitive binary64 type and operations are printed by Print Assumptions under "Axioms:" for the
 # checker-soundness theorems (the checker compares floats); they are kernel primitives, not axioms of this development
 ALLOWED_AXIOMS = ["PrimFloat.float", "PrimFloat.leb", "PrimFloat.eqb", "PrimFloat.add", "PrimFloat.abs",
                   "PrimFloat.is_nan", "PrimFloat.is_infinity", "PrimFloat.ltb", "PrimFloat.sub", "PrimFloat.mul",
                   "PrimFloat.of_uint63", "Uint63.int", "PrimInt63.int"]
 RULE = (
-    "generated .bp files: 1-4 samples, the drawn sample first / in the middle / last / absent, names with "
-    "underscores, 1-5 chromosomes incl. X, Y and chr-prefixed names, 1-5 blocks per chromosome, the last chromosome "
-    "with one or several blocks, tab or blank separated, with and without a chromosome-ends file (complete, with "
-    "repeated lines, lacking a chromosome); malformed stream: blank lines, bad headers, unparsable chromosome or cM "
-    "tokens, a sample with one strand, a strand without blocks, a repeated sample. Non-trivial = the sample is present "
-    "and one of its strands has >= 2 blocks on its last chromosome or >= 2 chromosomes. Distinct = distinct canonical JSON."
+    "generated .bp files: 1-4 samples, the drawn sample first / in the middle / last / absent (absent names are near "
+    "misses of present ones: a prefix, a suffixed form, with an underscore more or less); sample IDs from lexical pools: "
+    "alphanumeric with underscores, all digits, digit groups joined by underscores, IDs Python's float() accepts or nearly "
+    "accepts (1e5, 1_000, nan, inf, -3, .5), IDs equal to population labels, families of IDs that are prefixes / suffixes / "
+    "suffixed forms of one another; 1-5 chromosomes incl. X, Y and chr-prefixed names, 1-5 blocks per chromosome with cM "
+    "steps down to 0.00005, the last chromosome with one or several blocks, tab or blank separated, with and without a "
+    "chromosome-ends file (complete, with repeated lines, lacking a chromosome, listed ends below the last recorded end); "
+    "shapes at the edge of the quantifier: <name>_2 before <name>_1, a chromosome recurring non-adjacently in a strand; "
+    "malformed stream: blank lines, bad headers, unparsable chromosome or cM tokens, a sample with one strand, a strand "
+    "without blocks, a repeated sample. Non-trivial = the sample is present and one of its strands has >= 2 blocks on its "
+    "last chromosome or >= 2 chromosomes. Distinct = distinct canonical JSON."
 )
 TRUSTED = [
     "Python float()/int() on tokens are codec tables recorded per case (theorems: Section variables)",
@@ -39,10 +44,28 @@ TRUSTED = [
     "matplotlib keeps the vertices and face colours it is given (read back from ax.collections and the legend)",
 ]
 ASSUMPTIONS = [
-    "holds is demanded for files whose one-token lines pair up as <name>_1, <name>_2 with distinct names and whose other "
-    "lines have >= 2 tokens with parsable chromosome and cM end; with an ends file: every chromosome of the sample listed, "
-    "both strands non-empty",
-    "contiguity tolerance in holds: a block starts within [previous file end, previous file end + 0.001] (the code adds 0.0001)",
+    "holds is demanded for files whose one-token lines pair up as <name>_1, <name>_2 (in either order) with distinct names "
+    "and whose other lines have >= 2 tokens with parsable chromosome and finite cM end; with an ends file: every chromosome "
+    "of the sample listed, both strands non-empty. For such a file and a sample whose two headers are in it the answer must "
+    "be Ok with exactly two strands, each exactly the corresponding section (as many blocks as lines, same order, labels, "
+    "chromosomes; start rule; ends); an exception or an empty answer is a violation. For a name no header carries the "
+    "answer must be Ok [] (GetHaplotypeBlocks) / an error (PlotKaryogram).",
+    "<name>_2 before <name>_1: the statement fixes 'file order', so strand 0 must be the section whose header comes first "
+    "(that of <name>_2) and strand 1 the other; nothing is demanded about which strand is 'the first copy'.",
+    "a chromosome recurring non-adjacently in a strand (1, 2, 1) is outside the statement's quantifier ('per chromosome "
+    "contiguous' presupposes that the lines of a chromosome form one run; haptools writes them so). For that shape holds "
+    "still demands number, order, labels, chromosomes, the start rule per run, and the recorded end of every block that is "
+    "not the last of its run; the last block of a run whose chromosome comes back later may carry its recorded end or the "
+    "listed end (the text's 'last block of every chromosome' is the last run's last block; the code extends every run), "
+    "the last block of the chromosome's final run must carry the listed end. Disjointness is demanded within runs only.",
+    "a listed chromosome end below the recorded end of the block it replaces: the text says the last block 'is extended to "
+    "that chromosome's listed end', so holds demands end = listed end even then; start <= end and disjointness "
+    "(nonoverlap_ok) are demanded only when within every run of the sample's section the recorded ends increase by at "
+    "least the 0.0001 the code adds (first end >= 0.0001; x < x + 0.0001 <= next end, in binary64) and every listed end "
+    "is >= the recorded end it replaces - otherwise no file-respecting answer can be non-overlapping.",
+    "contiguity tolerance in holds: a block starts within [previous file end, previous file end + 0.001] (the code adds "
+    "0.0001); non-overlap is non-strict in holds (a block may start exactly where the previous one ended), strict in the "
+    "theorem about the model (x < plus_eps x).",
 ]
 
 POPS = ["YRI", "CEU", "ASW", "AMR", "p_1"]
@@ -98,21 +121,61 @@ def fmt_cm(x):
     return f"{x:.6f}".rstrip("0").rstrip(".") if x != int(x) else str(float(x))
 
 
+# sample IDs whose strand headers Python's float() would accept or nearly accept (PEP 515 underscores between digits:
+# float("12_7_1") == 1271.0, float("1e5_1") == 1e51), IDs that are float words, IDs equal to population labels, and
+# families of IDs that are prefixes / suffixes / suffixed forms of one another
+NUMERIC_NAMES = ["1000012", "12_7", "7", "007", "42", "3_14", "1e5", "1_000", "1.5", "-3", "+4", ".5", "5.", "1e-3", "0", "1_"]
+WORD_NAMES = ["nan", "inf", "Infinity", "NaN", "0x1F", "e5", "1e"]
+POP_NAMES = ["YRI", "CEU", "p", "AMR"]          # "p": its header p_1 is also a population label
+FAMILIES = [["Sample", "Sample_1", "Sample_1_1", "ample_1", "Sample_10", "Sam"],
+            ["12", "12_7", "2_7", "12_7_1", "112_7", "7"],
+            ["x", "x_x", "_x", "x_", "_"],
+            ["1", "1_1", "1_2", "2", "2_1"]]
+ALL_NAMES = sorted(set(NAMES + NUMERIC_NAMES + WORD_NAMES + POP_NAMES + [n for f in FAMILIES for n in f]))
+
+
 def gen_strand(rng, chroms, small=False):
     out = []
     for c in chroms:
         k = int(rng.integers(1, 3 if small else 6))
         cm = 0.0
         for _ in range(k):
-            cm = round(cm + float(rng.choice([0.25, 1.5, 20.003442, 87.107755, 0.000101])), 6)
+            cm = round(cm + float(rng.choice([0.25, 1.5, 20.003442, 87.107755, 0.000101, 0.0001, 0.00005])), 6)
             out.append([str(rng.choice(POPS)), c, str(int(rng.integers(1, 9999))), fmt_cm(cm)])
     return out
+
+
+def pick_names(rng, n):
+    r = rng.random()
+    if r < 0.3:
+        pool = NAMES
+    elif r < 0.5:
+        pool = NUMERIC_NAMES
+    elif r < 0.62:
+        pool = NUMERIC_NAMES + NAMES          # numeric and non-numeric neighbours
+    elif r < 0.72:
+        pool = WORD_NAMES + NUMERIC_NAMES[:6] + NAMES[:3]
+    elif r < 0.8:
+        pool = POP_NAMES + NAMES[:3] + NUMERIC_NAMES[:3]
+    elif r < 0.95:
+        pool = FAMILIES[int(rng.integers(0, len(FAMILIES)))]
+    else:
+        pool = ALL_NAMES
+    n = min(n, len(pool))
+    return [pool[i] for i in rng.choice(len(pool), size=n, replace=False)]
+
+
+def near_misses(names):
+    out = ["absent"]
+    for nm in names:
+        out += [nm + "_1", nm + "_2", nm + "_", nm[:-1], nm[1:], "_".join(nm.split("_")[:-1]), nm + "0", "0" + nm, nm.replace("_", "")]
+    return [x for x in out if x and x not in names]
 
 
 def gen_file(rng, malformed=False):
     """(lines, sample name, cen lines | None, kind)"""
     n = int(rng.integers(1, 5))
-    names = [NAMES[i] for i in rng.choice(len(NAMES), size=n, replace=False)]
+    names = pick_names(rng, n)
     cset = CHROM_SETS[int(rng.integers(0, len(CHROM_SETS)))]
     r = rng.random()
     if r < 0.3:
@@ -122,31 +185,54 @@ def gen_file(rng, malformed=False):
     elif r < 0.9:
         name = names[len(names) // 2]
     else:
-        name = str(rng.choice(["absent", "Sample", "Sample_1_1", "_"]))
+        nm = near_misses(names) + ["Sample", "Sample_1_1", "_"]
+        name = str(nm[int(rng.integers(0, len(nm)))])
+    shape = []
     lines = []
     for nm in names:
         small = nm != name and rng.random() < 0.8   # the other samples are kept short (literal size)
         k = int(rng.integers(1, (2 if small else len(cset)) + 1))
         chroms = cset[:k] if rng.random() < 0.7 else sorted(rng.choice(cset, size=k, replace=False).tolist(), key=cset.index)
+        if not malformed and k >= 2 and rng.random() < (0.1 if nm == name else 0.03):
+            # a chromosome recurring non-adjacently in the strand (outside the property's quantifier; see ASSUMPTIONS)
+            chroms = chroms + [chroms[int(rng.integers(0, k - 1))]]
+            shape.append("recurring-chrom")
+        strands = []
         for t in (1, 2):
-            lines.append([f"{nm}_{t}"])
             st = gen_strand(rng, chroms, small=small)
             if rng.random() < 0.25:  # last chromosome with exactly one block
-                last = st[-1][1]
-                first = next(i for i, b in enumerate(st) if b[1] == last)
-                st = st[:first + 1]
+                last = len(st) - 1
+                while last > 0 and st[last - 1][1] == st[-1][1]:
+                    last -= 1
+                st = st[:last + 1]
+            strands.append((t, st))
+        if not malformed and rng.random() < (0.1 if nm == name else 0.03):
+            strands.reverse()   # <name>_2 before <name>_1
+            shape.append("swapped-headers")
+        for t, st in strands:
+            lines.append([f"{nm}_{t}"])
             lines += st
     cen = None
     if rng.random() < 0.55:
-        allc = ["1", "2", "3", "5", "7", "10", "21", "22", "X", "Y"]
+        # the chromosomes of this file's set and two others (a full table only costs literal size)
+        allc = [c[3:] if c.startswith("chr") else c for c in cset]
+        allc += [str(x) for x in rng.choice(["1", "2", "3", "5", "7", "10", "21", "22", "X", "Y"], size=2, replace=False)]
+        allc = list(dict.fromkeys(allc))
         if rng.random() < 0.3:
             allc = ["chr" + c for c in allc]
+        low = rng.random() < 0.15   # listed ends below the recorded end of the chromosome's last block
         cen = []
         for c in allc:
             e = round(float(rng.choice([150.5, 293.379657656, 274.876631475, 62.5])) + int(rng.integers(0, 50)), 6)
-            cen.append([c, "0.469", repr(e / 2), repr(e)] if rng.random() < 0.8 else [c, "0.1", repr(e)])
+            if low and rng.random() < 0.7:
+                e = float(rng.choice([0.00005, 0.25, 1.5, 20.0]))
+            if rng.random() < 0.15:
+                e = 500.0 + int(rng.integers(0, 50))   # surely above every recorded end
+            cen.append([c, "0.4", "9.5", repr(e)] if rng.random() < 0.8 else [c, "0.1", repr(e)])
         if rng.random() < 0.15:
             cen.append([allc[0], "0.1", "5.5", "999.25"])  # repeated chromosome: the last line wins
+        if low:
+            shape.append("ends-low")
     kind = "wellformed"
     if malformed:
         r = rng.random()
@@ -168,7 +254,8 @@ def gen_file(rng, malformed=False):
             lines[i] = lines[i][:-1] + [str(rng.choice(["x", "", "1,5", "nan", "inf", "1e400", "1_0.5"])) or "x"]
             kind = "bad-cm"
         elif r < 0.64 and cen:
-            cen = [ln for ln in cen if ln[0] not in ("1", "chr1", "X", "chrX")]
+            gone = {c[3:] if c.startswith("chr") else c for c in (cset[0], "X")}
+            cen = [ln for ln in cen if (ln[0][3:] if ln[0].startswith("chr") else ln[0]) not in gone]
             kind = "ends-lack-chrom"
         elif r < 0.7 and cen:
             cen.insert(int(rng.integers(0, len(cen) + 1)), [])
@@ -201,7 +288,39 @@ def gen_file(rng, malformed=False):
             i = int(rng.choice(k))
             lines[i] = lines[i][:2] if rng.random() < 0.5 else lines[i] + ["extra", lines[i][-1]]
             kind = "field-count"
-    return {"lines": lines, "name": name, "cen": cen, "kind": kind, "sep": "\t" if rng.random() < 0.8 else " "}
+    return {"lines": lines, "name": name, "cen": cen, "kind": kind, "shape": sorted(set(shape)),
+            "sep": "\t" if rng.random() < 0.8 else " "}
+
+
+def rename_sample(inp, old, new):
+    """the same file with sample [old] called [new] (headers only; the drawn name follows)"""
+    hdrs = {old + "_1": new + "_1", old + "_2": new + "_2"}
+    if any(ln == [new + "_1"] or ln == [new + "_2"] for ln in inp["lines"]):
+        return None
+    lines = [[hdrs.get(ln[0], ln[0])] if len(ln) == 1 else ln for ln in inp["lines"]]
+    return dict(inp, lines=lines, name=new if inp["name"] == old else inp["name"])
+
+
+def header_names(inp):
+    names = []
+    for ln in inp["lines"]:
+        if len(ln) == 1 and (ln[0].endswith("_1") or ln[0].endswith("_2")) and ln[0][:-2] not in names:
+            names.append(ln[0][:-2])
+    return names
+
+
+def name_variants(inp, rng):
+    """boundary-directed variants of a file: the drawn sample, or one of its neighbours, renamed to IDs of the other
+    lexical classes (digits, digit groups, float words, population labels, prefixes / suffixes of the other names)"""
+    names = header_names(inp)
+    names.sort(key=lambda o: o != inp["name"])   # the drawn sample's variants first
+    for old in names:
+        pool = NUMERIC_NAMES[:6] + WORD_NAMES[:2] + POP_NAMES[:2] + ["Sample_1"] if old == inp["name"] else ["7", "3_14", "x"]
+        pool = pool + [o + "_1" for o in names if o != old][:2] + [o[:-1] for o in names if o != old and len(o) > 1][:1]
+        for new in pool:
+            v = rename_sample(inp, old, new)
+            if v is not None and new != old:
+                yield v
 
 
 def write_files(inp, d):
@@ -231,6 +350,26 @@ def sample_sections(inp):
     return out.get(inp["name"] + "_1"), out.get(inp["name"] + "_2")
 
 
+def name_classes(nm, names):
+    out = []
+    if nm.isdigit():
+        out.append("name:all-digits")
+    elif nm.replace("_", "").isdigit():
+        out.append("name:digits-underscores")
+    elif "ok" in pyfloat(nm):
+        out.append("name:float()-accepts-it")
+    if nm in POPS or nm + "_1" in POPS:
+        out.append("name:population-label")
+    others = [o for o in names if o != nm]
+    if any(o.startswith(nm) for o in others):
+        out.append("name:prefix-of-another")
+    if any(o.endswith(nm) for o in others):
+        out.append("name:suffix-of-another")
+    if any(nm.startswith(o) or nm.endswith(o) for o in others):
+        out.append("name:extends-another")
+    return out
+
+
 def common_classes(inp):
     out = [inp["kind"], "ends-file" if inp["cen"] is not None else "no-ends-file"]
     hdr = [ln[0] for ln in inp["lines"] if len(ln) == 1]
@@ -251,6 +390,11 @@ def common_classes(inp):
         out.append("sample:middle")
     if "_" in nm:
         out.append("sample:underscore-name")
+    out += name_classes(nm, names)
+    if any("ok" in pyfloat(h) for h in hdr):
+        out.append("header:float()-accepts-it")
+    for sh in inp.get("shape", []):
+        out.append("shape:" + sh)
     s1, s2 = sample_sections(inp)
     for s in (s1, s2):
         if s:
@@ -296,6 +440,25 @@ def shrink_file(inp):
         yield dict(inp, sep="\t")
 
 
+def names_exhaustive():
+    """every sample ID of the lexical pools x position in a three-sample file (first / middle / last) x the kind of its
+    neighbours (alphabetic, all-digit) x header order; two one-block strands each"""
+    out = []
+    blk = lambda i: ["YRI" if i % 2 else "CEU", "1", "5", repr(1.5 + i)]
+    for nm in ALL_NAMES:
+        for others in (["o", "q"], ["77", "5_6"]):
+            if nm in others:
+                continue
+            for pos in range(3):
+                names = list(others)
+                names.insert(pos, nm)
+                lines = []
+                for j, n in enumerate(names):
+                    lines += [[n + "_1"], blk(j), [n + "_2"], blk(j + 1), blk(j + 2)]
+                out.append({"lines": lines, "name": nm, "cen": None, "kind": "exhaustive-names", "sep": "\t"})
+    return out
+
+
 class Blocks(Relation):
     name = "blocks"
     coq_module = "C18_Check"
@@ -303,7 +466,7 @@ class Blocks(Relation):
     coq_case_type = "bcase"
     coq_model = "model_blocks"
     coq_imports = ["BpText", "C18_Model"]
-    budget = {"quick": 700, "thorough": 8000}
+    budget = {"quick": 520, "thorough": 5000}
     max_cases_per_shard = 50
     anchors = [("haptools/karyogram.py", "GetHaplotypeBlocks"), ("haptools/karyogram.py", "GetChrom")]
 
@@ -325,6 +488,7 @@ class Blocks(Relation):
                 lines = [["o_1"], ["CEU", "1", "5", "9.5"], ["o_2"], ["CEU", "1", "5", "9.5"], ["s_1"]] + st + [["s_2"]] + st[:1]
                 for c in (cen, None):
                     out.append({"lines": lines, "name": "s", "cen": c, "kind": "exhaustive", "sep": "\t"})
+        out += names_exhaustive()
         return out
 
     def run_impl(self, inp):
@@ -370,6 +534,7 @@ class Blocks(Relation):
             yield dict(inp, cen=[[c, "0", "500.25"] for c in ("1", "2", "3", "5", "7", "10", "21", "22", "X", "Y")])
         else:
             yield dict(inp, cen=None)
+        yield from list(name_variants(inp, rng))[:14]
 
     def signature(self, inp, obs):
         s1, s2 = sample_sections(inp)
@@ -377,6 +542,8 @@ class Blocks(Relation):
             return f"GetHaplotypeBlocks raises {obs.get('cls', obs.get('__exc__', '?'))} ends-file={inp['cen'] is not None}"
         if s1 is None and s2 is None:
             return "GetHaplotypeBlocks returns blocks for an absent sample"
+        if s1 is not None and s2 is not None and len(obs.get("ok", [])) != 2:
+            return f"GetHaplotypeBlocks returns {len(obs.get('ok', []))} strands for a sample whose two headers are in the file"
         if inp["cen"] is not None:
             return "GetHaplotypeBlocks chromosome-end extension"
         return "GetHaplotypeBlocks blocks of the sample"
@@ -389,7 +556,7 @@ class Plot(Relation):
     coq_case_type = "pcase"
     coq_model = "model_plot"
     coq_imports = ["BpText", "C18_Model"]
-    budget = {"quick": 60, "thorough": 600}
+    budget = {"quick": 40, "thorough": 300}
     max_cases_per_shard = 20
     timeout_per_case = 180
     anchors = [("haptools/karyogram.py", "PlotKaryogram"), ("haptools/karyogram.py", "PlotHaplotypeBlock"),
@@ -484,6 +651,7 @@ class Plot(Relation):
 
     def mutate(self, inp, rng):
         yield dict(inp, colors="given" if inp.get("colors") == "default" else "default")
+        yield from list(name_variants(inp, rng))[:6]
 
     def signature(self, inp, obs):
         s1, s2 = sample_sections(inp)
@@ -510,6 +678,9 @@ LEVEL_TEXT = (
 LEVEL_NOTE = (
     "Partial: matplotlib (vertices/face colours kept as given), Python's float()/int() and str.split() are contracts, "
     "not theorems; GetCentromereClipMask, colours and the legend are not modelled (the harness reads the legend to name "
-    "a rectangle's label). Theorems treat x + 0.0001 as an abstract function; the correspondence evaluates it with PrimFloat."
+    "a rectangle's label). Theorems treat x + 0.0001 as an abstract function; the correspondence evaluates it with PrimFloat. "
+    "'Non-overlapping' is a theorem about the model for every order on the abstract float type with the transitivity laws, "
+    "under the hypothesis that the file's cM ends increase within each run (x < plus_eps x <= next end); on the "
+    "implementation's output it is evaluated by holds under the same precondition in binary64."
 )
 TECHNIQUE = "Coq proof by induction on line/block lists + vm_compute-evaluated correspondence (PrimFloat) against the implementation"
